@@ -82,6 +82,26 @@ fn check_case(case: &Value) -> Option<Value> {
             }
         }
     } else {
+        // the time trigger built from a configuration value with this interval: never a panic, accepted exactly for
+        // intervals between one unit and 1000 years (Literals.tla, TriggerOk)
+        let trigger_ok = case["trigger_ok"].as_bool().unwrap_or(false);
+        for (fmt, doc) in [("yaml", format!("interval: {}\nmodulate: {}\n", yaml_scalar, lit["ws"] == " ")), ("json", format!("{{\"interval\": {}}}", json_scalar))] {
+            let parsed: Result<serde_value::Value, String> = if fmt == "yaml" {
+                serde_yaml::from_str(&doc).map_err(|e| e.to_string())
+            } else {
+                serde_json::from_str(&doc).map_err(|e| e.to_string())
+            };
+            let v = match parsed {
+                Ok(v) => v,
+                Err(_) => continue,
+            };
+            match catch(|| log4rs::config::Deserializers::default().deserialize::<dyn Trigger>("time", v)) {
+                Err(p) => return Some(json!({"what": "time trigger construction panicked", "format": fmt, "text": text, "error": p})),
+                Ok(Ok(_)) if !trigger_ok => return Some(json!({"what": "time trigger accepted an interval outside 1 unit .. 1000 years", "format": fmt, "text": text})),
+                Ok(Err(e)) if trigger_ok => return Some(json!({"what": "time trigger rejected a valid interval", "format": fmt, "text": text, "error": e.to_string()})),
+                _ => {}
+            }
+        }
         let unit = case["verdict"]["unit"].as_str().unwrap();
         for (fmt, doc) in [("yaml", yaml_scalar.clone()), ("json", json_scalar.clone())] {
             let r = catch(|| -> Result<TimeTriggerInterval, String> {
